@@ -14,9 +14,18 @@ Correspondence on random respondent-level surveys (harness/props/cube_util.py):
   (c) subtotal rows/columns of the six base matrices of categorical dimensions vs. the
       respondent-level oracle of the merged category (sum-only subtotals; differences belong
       to C04).
+  (d) THRESHOLD SWEEP of the minimum-base masks (Model/MinBaseMask.v): for every case of (a) and
+      for a stream of strands / slices re-weighted so that the weighted N moves away from the
+      unweighted N (zero-heavy, fractional, boosted, mixed weights) the cube is rebuilt with
+      mask_size just below, exactly at and just above EVERY distinct unweighted and weighted
+      base that occurs (all three directions; strand bases) and _Strand.min_base_size_mask /
+      MinBaseSizeMask.{row,column,table}_mask are compared with the model and with
+      `unweighted base < threshold` computed from the respondents.
 """
 import json
+import math
 import random
+from fractions import Fraction
 
 import numpy as np
 
@@ -274,6 +283,251 @@ def run_subtotal_case(case):
     return fails, n_sub
 
 
+# ------------------------------------------------------------------------------------
+# (d) threshold sweep of the minimum-base masks
+# ------------------------------------------------------------------------------------
+
+MASK_IMPORTS = cu.IMPORTS.replace("Model.CubeCountsRender.", "Model.CubeCountsRender Model.MinBaseMask.")
+PROFILES = ["as-generated", "zero-heavy", "fractional", "boosted", "mixed"]
+PROFILE_WEIGHTS = {
+    "zero-heavy": [Fraction(0)] * 4 + [Fraction(1)] * 5 + [Fraction(5, 4)],
+    "fractional": [Fraction(1, 8), Fraction(1, 4), Fraction(1, 2), Fraction(3, 4), Fraction(7, 8)],
+    "boosted": [Fraction(1), Fraction(2), Fraction(7, 2), Fraction(5), Fraction(9, 8)],
+    "mixed": [Fraction(0), Fraction(1, 8), Fraction(1), Fraction(5, 4), Fraction(3)],
+}
+SLICE_DIRS = (("row_mask", "row_unweighted_bases", "row_weighted_bases", ("in", "ok")),
+              ("column_mask", "column_unweighted_bases", "column_weighted_bases", ("ok", "in")),
+              ("table_mask", "table_unweighted_bases", "table_weighted_bases", ("ok", "ok")))
+MAX_THRESHOLDS = 75
+
+
+def reweight(rng, case, profile):
+    """Replace the respondents' weights (the answers stay) and rebuild the response."""
+    if profile != "as-generated":
+        pool = PROFILE_WEIGHTS[profile]
+        case["survey"]["weighted"] = True
+        for r in case["survey"]["resp"]:
+            r["w"] = str(rng.choice(pool))
+    case["weight_profile"] = profile
+    cu.finish_case(case)
+    return case
+
+
+def gen_mask_case(rng, k):
+    shape = rng.choice(["1d", "1d", "1d", "2d", "2d", "2d", "3d", "ca", "ca", "ca3"])
+    case = cu.gen_case(rng, k, shape_class=shape, numeric=(rng.random() < 0.12),
+                       n_resp=rng.choice([3, 8, 15, 25, 30]))
+    return reweight(rng, case, rng.choice(PROFILES[1:] + PROFILES[1:] + PROFILES[:1]))
+
+
+def _finite(vals):
+    out = set()
+    for x in vals:
+        e = core.to_exact(x)
+        if isinstance(e, Fraction):
+            out.add(e)
+    return out
+
+
+def _flat(v):
+    a = np.asarray(v, dtype=float)
+    return a.ravel().tolist()
+
+
+def mask_thresholds(rng, io):
+    """Thresholds just below / at / just above every distinct unweighted AND weighted base the
+    implementation reports for the case (exact: the bases are dyadic).  -> sorted Fractions."""
+    values = set()
+    for ip in io["parts"]:
+        for name in ("row_unweighted_bases", "row_weighted_bases", "column_unweighted_bases",
+                     "column_weighted_bases", "table_unweighted_bases", "table_weighted_bases",
+                     "unweighted_bases", "weighted_bases"):
+            r = ip.get(name)
+            if r is not None and r[0] == "ok" and r[1] is not None:
+                values |= _finite(_flat(r[1]))
+    if not values:
+        return []
+    den = 1
+    for v in values:
+        den = den * v.denominator // math.gcd(den, v.denominator)
+    if den > 4096:
+        return None                       # not dyadic enough to be exact floats: skip (counted)
+    eps = Fraction(1, 2 * den)
+    ts = set()
+    for v in values:
+        ts.update((v - eps, v, v + eps))
+    ts = sorted(ts)
+    if len(ts) > MAX_THRESHOLDS:
+        keep = set(rng.sample(range(len(ts)), MAX_THRESHOLDS))
+        ts = [t for n, t in enumerate(ts) if n in keep]
+    return ts
+
+
+def sweep_terms(case, thresholds):
+    axes = case["_axes"]
+    ds, p = cu.g_dims(axes), cu.g_payload(case["response"])
+    sizes = core.g_list([core.g_xq(t) for t in thresholds])
+    n_app = len([a for a in axes if a["role"] != "mr_sel"])
+    if n_app >= 2 and not case.get("ca_as_0th"):
+        return ("slices", "r_slice_masks %s %s %s" % (ds, p, sizes))
+    if n_app >= 1:
+        return ("strands", "r_strand_masks %s %s %s %s" % (
+            ds, p, core.g_bool(bool(case.get("ca_as_0th"))), sizes))
+    return None
+
+
+def sweep_impl(case, thresholds):
+    """-> per threshold: ('ok', [per partition {mask name: ('ok', nested bools) | ('exc', ..)}]) | ('exc', ..)"""
+    cube_idx = 0 if case.get("ca_as_0th") else None
+    out = []
+    for t in thresholds:
+        size = float(t)
+        assert Fraction(size) == t
+        res = impl.guarded(lambda: impl.cube(case["response"], mask_size=size, cube_idx=cube_idx).partitions)
+        if res[0] != "ok":
+            out.append(res)
+            continue
+        per = []
+        for p in res[1]:
+            tn = type(p).__name__
+            d = {}
+            if tn == "_Slice":
+                for mn in ("row_mask", "column_mask", "table_mask"):
+                    r = impl.guarded(lambda mn=mn: getattr(p.min_base_size_mask, mn))
+                    d[mn] = (r[0], impl.tolist(r[1])) if r[0] == "ok" else r
+            elif tn == "_Strand":
+                r = impl.get(p, "min_base_size_mask")
+                d["mask"] = (r[0], impl.tolist(r[1])) if r[0] == "ok" else r
+            per.append(d)
+        out.append(("ok", per))
+    return out
+
+
+def dec_sweep(kind, toks):
+    d = core.Dec(toks)
+    bvec = lambda: d.list(d.bool)  # noqa
+    bmat = lambda: d.list(bvec)  # noqa
+
+    def part():
+        if d.Z() != 1:
+            return None
+        if kind == "slices":
+            return d.list(lambda: {"row_mask": bmat(), "column_mask": bmat(), "table_mask": bmat()})
+        return d.list(lambda: {"mask": bvec()})
+
+    out = d.list(part)
+    assert d.done()
+    return out
+
+
+def _bools(v):
+    a = np.asarray(v)
+    return a.astype(bool).tolist()
+
+
+def compare_sweep(case, io, kind, thresholds, got, model, rep):
+    """-> list of failures; counts the shapes it exercised in rep.dist."""
+    fails = []
+    sv = case["_sv"]
+    oracle = cu.Oracle(sv, case["_axes"])
+    use_oracle = not has_valid_counts(case)
+    ca0 = bool(case.get("ca_as_0th"))
+    parts = io["parts"]
+    if len(model) != len(parts):
+        return [{"what": "n_partitions", "impl": len(parts), "model": len(model)}]
+    # unweighted bases from the respondents, weighted bases as reported (only to classify thresholds)
+    exp_u, rep_w = [], []
+    for k, ip in enumerate(parts):
+        if kind == "slices":
+            eu, rw = {}, {}
+            for mn, _ub, wb, modes in SLICE_DIRS:
+                eu[mn] = oracle.slice_cells(k, modes[0], modes[1], False) if use_oracle else None
+                r = ip.get(wb)
+                rw[mn] = r[1] if r is not None and r[0] == "ok" else None
+            exp_u.append(eu)
+            rep_w.append(rw)
+        else:
+            exp_u.append({"mask": oracle.strand_cells(k, "ok", False, ca0=ca0) if use_oracle else None})
+            r = ip.get("weighted_bases")
+            rep_w.append({"mask": r[1] if r is not None and r[0] == "ok" else None})
+    for n, t in enumerate(thresholds):
+        g = got[n]
+        if g[0] != "ok":
+            fails.append({"what": "partitions raise with mask_size", "size": str(t), "impl": g[1:]})
+            continue
+        for k, gp in enumerate(g[1]):
+            mp = model[k]
+            if mp is None:
+                fails.append({"what": "model has no partition", "part": k})
+                continue
+            for mn in (("row_mask", "column_mask", "table_mask") if kind == "slices" else ("mask",)):
+                what = mn if kind == "slices" else "strand mask"
+                short = mn.split("_")[0] if kind == "slices" else "strand"
+                r = gp.get(mn)
+                if r is None or r[0] != "ok":
+                    fails.append({"what": what, "part": k, "size": str(t), "impl": None if r is None else r[1:]})
+                    continue
+                gb = _bools(r[1])
+                if gb != mp[n][mn]:
+                    fails.append({"what": what, "part": k, "size": str(t), "impl": gb, "model": mp[n][mn],
+                                  "oracle": "model"})
+                eu = exp_u[k][mn]
+                if eu is not None:
+                    if kind == "slices":
+                        eb = [[b < t for b in row] for row in eu]
+                        flat_u = [b for row in eu for b in row]
+                    else:
+                        eb = [b < t for b in eu]
+                        flat_u = list(eu)
+                    if gb != eb:
+                        fails.append({"what": what, "part": k, "size": str(t), "impl": gb, "expected": eb,
+                                      "unweighted_bases_from_respondents": [str(b) for b in flat_u],
+                                      "oracle": "survey"})
+                    if any(b == t for b in flat_u):
+                        rep.dist("mask-boundary(base==threshold):" + short)
+                    rw = rep_w[k][mn]
+                    if rw is not None:
+                        flat_w = [core.to_exact(x) for x in _flat(rw)]
+                        if len(flat_w) == len(flat_u) and any(
+                                isinstance(w, Fraction) and ((w < t) != (u < t)) for w, u in zip(flat_w, flat_u)):
+                            rep.dist("mask-threshold-separates-weighted-from-unweighted:" + short)
+    return fails
+
+
+def run_sweeps(rep, rng, sweep_cases, tag="masks"):
+    """sweep_cases: [(case, io)] -> evaluates model + implementation for every threshold."""
+    jobs, terms = [], []
+    for case, io in sweep_cases:
+        if "error" in io or not io["parts"]:
+            continue
+        ts = case.get("mask_thresholds")
+        ts = [Fraction(x) for x in ts] if ts is not None else mask_thresholds(rng, io)
+        if ts is None:
+            rep.dist("mask-sweep-skipped:non-dyadic-bases")
+            continue
+        if not ts:
+            continue
+        kt = sweep_terms(case, ts)
+        if kt is None:
+            continue
+        case["mask_thresholds"] = [str(t) for t in ts]
+        jobs.append((case, io, kt[0], ts))
+        terms.append(kt[1])
+    results, coq_s = core.run_coq_cases(PID, MASK_IMPORTS, terms, shard=25, tag=tag) if terms else ([], 0.0)
+    n_thr = 0
+    all_fails = []
+    for (case, io, kind, ts), toks in zip(jobs, results):
+        model = dec_sweep(kind, toks)
+        got = sweep_impl(case, ts)
+        n_thr += len(ts)
+        rep.dist("mask-sweep:" + cu.class_pair(case))
+        rep.dist("mask-sweep:weights=" + case.get("weight_profile", "as-generated")
+                 if case["_sv"].weighted else "mask-sweep:weights=unweighted")
+        fails = compare_sweep(case, io, kind, ts, got, model, rep)
+        all_fails.append((case, fails))
+    return all_fails, n_thr, coq_s
+
+
 def describe(rep, case):
     rep.dist("class=" + cu.class_pair(case))
     sv = case["_sv"]
@@ -317,6 +571,25 @@ def run(tier, seed):
             ctx = {"what": f.get("what"), "class": cu.class_pair(case)}
             rep.violation("impl-vs-model" if f.get("oracle") != "survey" else "impl-vs-survey",
                           cu.replayable(case), f, ctx)
+    # ---- (d) threshold sweep of the masks: every case above + the re-weighted stream ----
+    n_mask_cases = 150 if tier == "quick" else 2500
+    rng_m = random.Random(seed + 5)
+    sweep_cases = [(c, io) for c, io in zip(cases, ios) if len(c["_sv"].resp) > 0]
+    for k in range(n_mask_cases):
+        case = gen_mask_case(rng_m, k)
+        io = cu.run_impl(case, cu.SLICE_BASE_NAMES, cu.STRAND_BASE_NAMES, masks=False)
+        rep.count_case(dict(cu.replayable(case), mask_sweep=True), len(case["_sv"].resp) > 0)
+        if "error" in io:
+            rep.violation("impl-vs-model", cu.replayable(case), {"what": "exception", "impl": io["error"][1:]},
+                          {"what": "exception", "class": cu.class_pair(case)})
+            continue
+        sweep_cases.append((case, io))
+    sweep_fails, n_thresholds, coq_m = run_sweeps(rep, rng_m, sweep_cases)
+    for case, fails in sweep_fails:
+        for f in fails:
+            ctx = {"what": f.get("what"), "class": cu.class_pair(case), "leg": "mask-sweep"}
+            rep.violation("impl-vs-model" if f.get("oracle") != "survey" else "impl-vs-survey",
+                          dict(cu.replayable(case), mask_sweep=True), f, ctx)
     n_subtotals = 0
     for k in range(n_sub_cases):
         case = gen_subtotal_case(rng, k)
@@ -332,9 +605,14 @@ def run(tier, seed):
         "cases from random.Random(seed+2): same survey generator as C01 (all dimension kinds, class "
         "pairs, 1-D/2-D/3-D, weighted/unweighted, per-item MR missingness, missing categories "
         "anywhere), mask sizes {0,1,2,3,5,10}; plus a stream of CAT/MR slices with sum-only subtotal "
-        "insertions on the categorical dimensions. non-trivial = at least one respondent (resp. at "
-        "least one subtotal); distinct by content hash")
-    rep.cov["coq_eval_seconds"] = round(coq_s, 2)
+        "insertions on the categorical dimensions; plus (seed+5) a stream of strands (CAT / MR / enum / "
+        "CA-as-0th) and slices re-weighted with zero-heavy / fractional / boosted / mixed weights; for "
+        "every case with respondents the masks are read at thresholds base-eps, base, base+eps for EVERY "
+        "distinct weighted and unweighted base of the case (eps = half the grid of the dyadic bases; at "
+        "most %d thresholds per case). non-trivial = at least one respondent (resp. at least one "
+        "subtotal); distinct by content hash" % MAX_THRESHOLDS)
+    rep.cov["coq_eval_seconds"] = round(coq_s + coq_m, 2)
+    rep.cov["mask_thresholds_evaluated"] = n_thresholds
     rep.cov["model_terms_evaluated"] = len(flat)
     rep.cov["subtotal_vectors_checked"] = n_subtotals
     rep.assumptions = [
@@ -345,8 +623,9 @@ def run(tier, seed):
         "float64 vs exact rationals: relative tolerance 1e-9",
     ]
     return rep.finish("proof", ob, trusted_base=core.TRUSTED_BASE_COMMON + [
-        "Model/CubeCounts.v is hand-written; tied to matrix/measure.py margins, cubepart.py fall-backs and "
-        "min_base_size_mask.py by this correspondence run only; its bases / margins / scalar table base of the "
+        "Model/CubeCounts.v and Model/MinBaseMask.v are hand-written; tied to matrix/measure.py margins, "
+        "cubepart.py fall-backs / _Strand.min_base_size_mask and min_base_size_mask.py by this correspondence "
+        "run only; its bases / margins / scalar table base of the "
         "nine class pairs (through the factory dict, inheritance flattened) and the stripe bases are ALSO tied "
         "to the text of matrix/cubemeasure.py and stripe/cubemeasure.py by the C02_gen_* obligations "
         "(Proofs/GenAgreeBases.v)",
@@ -361,6 +640,14 @@ def replay(path):
     cu.finish_case(case)
     if case.get("subtotals"):
         fails, _ = run_subtotal_case(case)
+    elif case.get("mask_sweep"):
+        io = cu.run_impl(case, cu.SLICE_BASE_NAMES, cu.STRAND_BASE_NAMES, masks=False)
+        if "error" in io:
+            fails = [{"what": "exception", "impl": io["error"][1:]}]
+        else:
+            rep = core.Report(PID, "quick", d.get("seed", 0))
+            res, _n, _s = run_sweeps(rep, random.Random(0), [(case, io)], tag="replay")
+            fails = [f for _c, fs in res for f in fs]
     else:
         io, terms = build(case)
         results, _ = core.run_coq_cases(PID, cu.IMPORTS, [t for (_k, t) in terms], tag="replay")
